@@ -14,7 +14,7 @@ def _tag(repo):
     return hashlib.sha1(os.path.abspath(repo).encode()).hexdigest()[:8]
 
 
-def build(root, repo, work):
+def build(root, repo, work, seed=0, tier="quick"):
     """-> (exe, cfg, error)"""
     udir = os.path.join(root, "units", "gen")
     cfg = json.load(open(os.path.join(udir, "unit.json")))
@@ -52,6 +52,8 @@ def build(root, repo, work):
             call = 'check_plain(rep, "%s", &%s(), seq, &|st| %s::%s::new().parse(st).map(|_| ()))' % (v["name"], g["oracle"], v["name"], g["parser"])
         elif g["check"] == "fallible":
             call = 'check_fallible(rep, "%s", &%s(), seq, &|log, st| %s::%s::new().parse(log, st))' % (v["name"], g["oracle"], v["name"], g["parser"])
+        elif g["check"] == "recfallible":
+            call = 'check_recfallible(rep, "%s", seq, &|log, st| %s::%s::new().parse(log, st))' % (v["name"], v["name"], g["parser"])
         else:
             call = 'check_recovery(rep, "%s", seq, &|st| %s::%s::new().parse(st))' % (v["name"], v["name"], g["parser"])
         disp_all.append('    { let lens = LENS_%s; for_all(%s, if n == 0 { lens.0 } else { lens.1 }, &mut |seq: &[Tok]| { %s; }); }' % (v["grammar"].upper(), alpha, call))
@@ -69,10 +71,26 @@ def build(root, repo, work):
         call = 'check_lexer(rep, "%s", &%s(), text, &|log, t| %s::SParser::new().parse(log, t))' % (v["name"], v["spec"], v["name"])
         lex_all.append('    for_all_text(LEX_ALPHA, if n == 0 { %d } else { %d }, &mut |text: &str| { %s; });' % (cfg["lex_len_quick"], cfg["lex_len_thorough"], call))
         lex_one.append('        "%s" => { %s; }' % (v["name"], call))
+    # seeded random grammars
+    renv = dict(env)
+    renv.pop("LALRPOP_LANE_TABLE", None)
+    rnd = random_grammars(seed, cfg.get("random_grammars_thorough", 40) if tier == "thorough" else cfg.get("random_grammars_quick", 12), lalrpop, gdir, renv)
+    oracle_fns = []
+    for g in rnd:
+        prods = ", ".join("(%d, vec![%s])" % (l, ", ".join(("T(%d)" % RND_TERMS[v][2]) if k == "T" else ("N(%d)" % v) for (k, v) in r)) for (l, r) in g["prods"])
+        oracle_fns.append("fn g_%s() -> Grammar { use Sym::*; Grammar { start: 0, prods: vec![%s] } }" % (g["name"], prods))
+        alpha = "&[%s]" % ", ".join(RND_TERMS[v][1] for v in g["terms"])
+        for suffix in ("lane", "ascent"):
+            vn = "%s_%s" % (g["name"], suffix)
+            mods.append('#[allow(warnings)] #[path = "gen/%s.rs"] mod %s;' % (vn, vn))
+            call = 'check_plain(rep, "%s", &g_%s(), seq, &|st| %s::N0Parser::new().parse(st).map(|_| ()))' % (vn, g["name"], vn)
+            disp_all.append('    for_all(%s, if n == 0 { %d } else { %d }, &mut |seq: &[Tok]| { %s; });' % (alpha, cfg.get("random_len_quick", 4), cfg.get("random_len_thorough", 5), call))
+            disp_one.append('        "%s" => { %s; }' % (vn, call))
+    cfg["_random"] = [dict(name=g["name"], grammar=g["text"]) for g in rnd]
     open(os.path.join(crate, "src", "generated_mods.rs"), "w").write("\n".join(mods) + "\n")
     lens = "\n".join("const LENS_%s: (usize, usize) = (%d, %d);" % (k.upper(), g["len_quick"], g["len_thorough"]) for k, g in cfg["grammars"].items())
     open(os.path.join(crate, "src", "generated_dispatch.rs"), "w").write(
-        lens + "\n/// n == 0: quick bounds, otherwise thorough bounds\nfn run_all(rep: &mut Report, n: usize) {\n" + "\n".join(disp_all) +
+        "\n".join(oracle_fns) + "\n" + lens + "\n/// n == 0: quick bounds, otherwise thorough bounds\nfn run_all(rep: &mut Report, n: usize) {\n" + "\n".join(disp_all) +
         "\n}\nfn run_variant(rep: &mut Report, name: &str, seq: &[Tok]) {\n    match name {\n" + "\n".join(disp_one) +
         '\n        _ => panic!("unknown variant"),\n    }\n}\n' +
         "fn run_lex_all(rep: &mut Report, n: usize) {\n" + "\n".join(lex_all) + "\n}\n" +
@@ -144,19 +162,116 @@ def run_ambig(root, repo, cfg, lalrpop, work, only=None):
     return n, fails
 
 
+# ---------------------------------------------------------------------------------------------------------------
+# random small grammars (seeded): widen the grammar shapes U5 sees beyond the hand-written ones
+# ---------------------------------------------------------------------------------------------------------------
+RND_TERMS = [("a", "Tok::A", 6), ("b", "Tok::B", 7), ("c", "Tok::C", 8), ("d", "Tok::D", 9), ("e", "Tok::E", 10), ("p", "Tok::P", 11)]
+RND_HEADER = """use crate::common::{Tok, MyErr};
+@ATTRS@
+grammar;
+extern {
+    type Location = usize;
+    type Error = MyErr;
+    enum Tok { "a" => Tok::A, "b" => Tok::B, "c" => Tok::C, "d" => Tok::D, "e" => Tok::E, "p" => Tok::P }
+}
+"""
+
+
+def _random_grammar(rng):
+    nn = rng.randint(2, 4)
+    nt = rng.randint(3, 5)
+    prods = []
+    for lhs in range(nn):
+        for _ in range(rng.randint(1, 3)):
+            rhs = []
+            for _ in range(rng.choice([0, 1, 1, 2, 2, 2, 3, 3])):
+                if rng.random() < 0.45:
+                    rhs.append(("N", rng.randrange(nn)))
+                else:
+                    rhs.append(("T", rng.randrange(nt)))
+            if (lhs, rhs) not in prods:
+                prods.append((lhs, rhs))
+    # productive / reachable
+    productive = set()
+    changed = True
+    while changed:
+        changed = False
+        for (l, r) in prods:
+            if l not in productive and all(k == "T" or v in productive for (k, v) in r):
+                productive.add(l)
+                changed = True
+    reach = {0}
+    changed = True
+    while changed:
+        changed = False
+        for (l, r) in prods:
+            if l in reach:
+                for (k, v) in r:
+                    if k == "N" and v not in reach:
+                        reach.add(v)
+                        changed = True
+    if productive != set(range(nn)) or reach != set(range(nn)):
+        return None
+    used = sorted(set(v for (_, r) in prods for (k, v) in r if k == "T"))
+    if len(used) < 2:
+        return None
+    return nn, prods, used
+
+
+def random_grammars(seed, want, lalrpop, gdir, env):
+    """-> list of dict(name, prods, terms) for grammars the DEFAULT configuration of lalrpop accepts"""
+    import random
+    rng = random.Random(1000003 * (seed + 1))
+    out = []
+    tries = 0
+    while len(out) < want and tries < want * 40:
+        tries += 1
+        g = _random_grammar(rng)
+        if g is None:
+            continue
+        nn, prods, used = g
+        body = []
+        for n in range(nn):
+            alts = []
+            for (l, r) in prods:
+                if l == n:
+                    alts.append("    " + " ".join(('"%s"' % RND_TERMS[v][0]) if k == "T" else ("N%d" % v) for (k, v) in r) + " => (),")
+            body.append("%sN%d: () = {\n%s\n};" % ("pub " if n == 0 else "", n, "\n".join(alts)))
+        text = RND_HEADER + "\n".join(body) + "\n"
+        name = "rnd%d" % len(out)
+        ok = True
+        for (suffix, attrs) in (("lane", ""), ("ascent", "#[recursive_ascent]")):
+            src = os.path.join(gdir, "%s_%s.lalrpop" % (name, suffix))
+            open(src, "w").write(text.replace("@ATTRS@", attrs))
+            q = subprocess.run([lalrpop, "--force", "--level", "quiet", src], cwd=gdir, env=env, capture_output=True, text=True, timeout=120)
+            if q.returncode != 0 or not os.path.exists(src[:-8] + ".rs"):
+                ok = False
+                break
+        if not ok:
+            for suffix in ("lane", "ascent"):
+                for ext in (".lalrpop", ".rs"):
+                    try:
+                        os.remove(os.path.join(gdir, "%s_%s%s" % (name, suffix, ext)))
+                    except OSError:
+                        pass
+            continue
+        out.append(dict(name=name, prods=prods, terms=used, text=text))
+    return out
+
+
 def run_gen_unit(root, repo, us, prop, tier, seed, work):
     r = dict(unit="native/gen", kind="native", status="undecided", reason="", failed=[], obligations=0, discharged=0,
-             functions=["generated <X>Parser::parse for 14 grammar variants (lane table / LALR / LR(1); table-driven / recursive ascent)"],
+             functions=["generated <X>Parser::parse for 16 grammar variants (lane table / LALR / LR(1); table-driven / recursive ascent)"],
              assumptions=[], notes=[], bounded=True, bounds="", wall_s=0.0, solver_ms=0, cfg={}, checker_cmd="", samples=[],
              guards={}, evaluations=0, distinct_nontrivial=0)
     t0 = time.time()
     os.makedirs(work, exist_ok=True)
     try:
-        exe, cfg, err = build(root, repo, work)
+        exe, cfg, err = build(root, repo, work, seed, tier)
     except subprocess.TimeoutExpired:
         r["reason"] = "build timed out"
         return r
-    r["cfg"] = {k: v for k, v in cfg.items() if k != "_lalrpop"}
+    r["cfg"] = {k: v for k, v in cfg.items() if not k.startswith("_")}
     if err:
         r["reason"] = err
         r["wall_s"] = time.time() - t0
@@ -189,7 +304,8 @@ def run_gen_unit(root, repo, us, prop, tier, seed, work):
         if pm:
             r["failed"].append(dict(id="native/gen:panic", function="gen_native", message="panic during the bounded run: " + pm.group(0)[:300],
                                     clause="", tags=["C08"], output=p.stderr[-2000:], counterexample=None))
-            r["status"] = "fail"
+            # the run was cut short: a C08 violation, and nothing is decided for the other properties
+            r["status"] = "undecided"
         r["wall_s"] = time.time() - t0
         return r
     # C11 end to end
